@@ -21,9 +21,43 @@ def generate(c):
     obls = ex.run()
     extra = list(X.PRODUCT_FACTS) + ex.distinct_literals()
     for o in obls: o.hyps = extra + o.hyps
+    obls += frame_obligations(c)
     # vacuity canary: the preconditions together with the theory must not prove False
     obls.append(Obligation(c.qualname, 'canary/pre-consistent', 'canary', extra + list(ex.entry_pc), z3.BoolVal(False), expect='not-unsat'))
     return obls, {'source_hash': h, 'lines': (node.lineno, node.end_lineno), 'loops': len(ex.loops)}
+
+
+_AN = [None]
+
+
+def analyzer():
+    from . import effects
+    from .contract import REPO_SRC
+    if _AN[0] is None: _AN[0] = effects.Analyzer(REPO_SRC)
+    return _AN[0]
+
+
+def frame_obligations(c):
+    """frame clause of the contract, decided by the static effect analysis (gvc.effects) on the current source:
+    one obligation per parameter that must not be modified, plus the value-semantics side condition"""
+    s = analyzer().summary(c.qualname)
+    if s is None: raise KeyError('effects: %s not found' % c.qualname)
+    if s.aliased:
+        raise Unsupported('in-place mutation through an alias at line %s (%s / %s): outside the value-semantics subset' % s.aliased[0])
+    out = []
+    allowed = set(c.modifies) | ({'self'} if c.is_method and c.qualname.endswith('__init__') else set())
+    for prm in c.params:
+        if prm in allowed: continue
+        lines = sorted({l for (q, d), ls in s.mutates.items() if q == prm for l in ls})
+        o = Obligation(c.qualname, 'frame/unchanged(%s)' % prm, 'frame', [], z3.BoolVal(not lines))
+        o.status = 'unsat' if not lines else 'unknown'; o.backend = 'effects'; o.ms = 0
+        o.output = 'effects:no mutation of any object reachable from %s' % prm if not lines else 'effects:possible mutation of an object reachable from %s at line(s) %s' % (prm, lines)
+        out.append(o)
+    g = sorted(s.globals)
+    o = Obligation(c.qualname, 'frame/no-global-state-modified', 'frame', [], z3.BoolVal(not g))
+    o.status = 'unsat' if not g else 'unknown'; o.backend = 'effects'; o.ms = 0; o.output = 'effects:%s' % (g or 'none')
+    out.append(o)
+    return out
 
 
 def verify(c, timeout=10, jobs=16, keep_dir=None):
@@ -34,7 +68,7 @@ def verify(c, timeout=10, jobs=16, keep_dir=None):
     except (Unsupported, KeyError, NotImplementedError, TypeError, AssertionError, IndexError, AttributeError, z3.Z3Exception) as e:
         return {'fn': c.qualname, 'status': 'unbound', 'reason': '%s: %s' % (type(e).__name__, e), 'trace': traceback.format_exc(), 'obligations': []}
     ax = theory_axioms(c) + [f for _n, f in S.GEN_AXIOMS]
-    discharge(obls, ax, timeout=timeout, jobs=jobs, keep_dir=keep_dir)
+    discharge([o for o in obls if o.backend != 'effects'], ax, timeout=timeout, jobs=jobs, keep_dir=keep_dir)
     failed = [o for o in obls if (o.kind != 'canary' and o.status != 'unsat') or (o.kind == 'canary' and o.status == 'unsat')]
     return {'fn': c.qualname, 'status': 'proved' if not failed else 'failed', 'obligations': obls, 'failed': failed, 'info': info,
             'wall_s': time.time() - t0}
